@@ -37,6 +37,8 @@ def sig_c16(f):
 PROPS = {
     "C16": dict(
         src="Properties/C16.v", target="Properties/C16.vo",
+        # statements about the tree as it is: the "flag is repaired" premises discharged against Extracted.Facts
+        more_src=["Properties/C16Current.v"],
         support=["Decode/Model.vo"], run_targets=["Run/DecodeCases.vo"],
         drivers=[dict(name="decode", n_quick=2400, n_thorough=24000, shard=300,
                       results={"R_mon": "mon", "R_decode": "agree", "R_tree": "agree",
